@@ -120,6 +120,7 @@ class Tr:
         self.dirty = set()          # roots changed AFTER one of their lengths was first read on this path
         self.len_read = set()       # roots one of whose lengths has been read on this path
         self.local_objs = {}        # local names bound in the body -> L1, L2, ... (so that renaming a local is harmless)
+        self.local_names = set()    # every name the body binds
 
     def key(self, node):
         return ast.unparse(node)
@@ -476,7 +477,11 @@ class Tr:
 
         class A(ast.NodeTransformer):
             def visit_Name(self, n):
-                if n.id in tr.local_objs:
+                if n.id in tr.local_names:
+                    # numbered at first appearance in a recorded effect: integer locals never appear (they are `_`),
+                    # so introducing or removing one does not renumber the object locals
+                    if n.id not in tr.local_objs:
+                        tr.local_objs[n.id] = f"L{len(tr.local_objs) + 1}"
                     return ast.copy_location(ast.Name(id=tr.local_objs[n.id], ctx=n.ctx), n)
                 return n
 
@@ -679,9 +684,9 @@ def translate_one(repo, spec):
             raise Untranslatable(f"parameter list is now ({', '.join(names)})")
         tr = Tr(spec)
         for node in ast.walk(fn):
-            if isinstance(node, ast.Name) and isinstance(node.ctx, ast.Store) and node.id not in tr.local_objs \
+            if isinstance(node, ast.Name) and isinstance(node.ctx, ast.Store) \
                     and node.id not in [a.arg for a in fn.args.posonlyargs + fn.args.args]:
-                tr.local_objs[node.id] = f"L{len(tr.local_objs) + 1}"
+                tr.local_names.add(node.id)
         env = {p: (lname(p), t) for p, t in spec["params"]}
         for a in spec.get("state", []):
             env[f"self.{a}"] = (f"self{a}", "int")
